@@ -12,11 +12,20 @@ import (
 
 // resolveLocal finds the SSA value a source-level variable name denotes at block `at`.
 func (e *Exec) resolveLocal(name string, at *ssa.BasicBlock, h *Heap) (Term, bool) {
-	if name == "ITER" {
-		// completed iterations of the innermost range loop enclosing `at`
+	if name == "ITER" || name == "ITER_OUTER" {
+		// completed iterations of the innermost range loop enclosing `at` (ITER_OUTER: of the range
+		// loop enclosing that one)
+		skip := 0
+		if name == "ITER_OUTER" {
+			skip = 1
+		}
 		for i := len(e.loopOrd) - 1; i >= 0; i-- {
 			li := e.loopOrd[i]
 			if li.rangeIdx != nil && (at == nil || li.body[at] || li.header == at) {
+				if skip > 0 {
+					skip--
+					continue
+				}
 				if sv, ok := e.stepVals[li.rangeIdx]; ok {
 					return intT(app("+", sv.S, "1")), true
 				}
